@@ -1,7 +1,7 @@
 (* C05 — parsing never panics, overflows or hangs on any input (model level). *)
 From hls Require Import Base Float Lex Kinds Types Tags Line Keys Media Master.
 From hls Require Import ByteLex.
-From hls.Proofs Require Import Build Parse MediaProps NoPanic ByteLexProof.
+From hls.Proofs Require Import Build Parse MediaProps NoPanic ByteLexProof KeyCost.
 Open Scope N_scope.
 
 (* for every string and every pre-configured builder, the media parser returns Ok or Err *)
@@ -84,6 +84,43 @@ Print Assumptions C05_tag_split.
 
 (* the index-level model can express the panics: the slice of the unquote defect D15 (`&value[1..0]` on a lone quote), a slice
    off a character boundary, an underflow *)
+(* the cost clause, at the level of the key machinery (the only part of the parser whose work per line is not constant): for every
+   sequence h of key events — the list of keys in effect never holds more entries than there are key formats in the text
+   (pigeonhole over "one key per format"), so the comparisons and copies spent on keys (`key_work`: per event one search and one
+   filter over the keys in effect) are LINEAR in the number of events when the formats are bounded, and at most QUADRATIC otherwise.
+   Wall-clock time itself is measured (evidence field streams.time_scaling), not proved. *)
+Theorem C05_keys_bounded : forall h reps, (forall k, In (Some k) h -> exists r, In r reps /\ same_fmt k r = true) ->
+  (List.length (keys_after h) <= Nat.max 1 (List.length reps))%nat.
+Proof. exact keys_bounded. Qed.
+Check C05_keys_bounded : forall h reps, (forall k, In (Some k) h -> exists r, In r reps /\ same_fmt k r = true) ->
+  (List.length (keys_after h) <= Nat.max 1 (List.length reps))%nat.
+Print Assumptions C05_keys_bounded.
+Theorem C05_key_work_linear : forall h reps, (forall k, In (Some k) h -> exists r, In r reps /\ same_fmt k r = true) ->
+  (key_work h <= List.length h * (2 * Nat.max 1 (List.length reps) + 1))%nat.
+Proof. exact key_work_linear. Qed.
+Check C05_key_work_linear : forall h reps, (forall k, In (Some k) h -> exists r, In r reps /\ same_fmt k r = true) ->
+  (key_work h <= List.length h * (2 * Nat.max 1 (List.length reps) + 1))%nat.
+Print Assumptions C05_key_work_linear.
+Theorem C05_key_work_quadratic : forall h, (key_work h <= List.length h * (2 * List.length h + 1))%nat.
+Proof. exact key_work_quadratic. Qed.
+Check C05_key_work_quadratic : forall h, (key_work h <= List.length h * (2 * List.length h + 1))%nat.
+Print Assumptions C05_key_work_quadratic.
+
+Definition c05_key (n : N) (f : option KeyFormat) : Key :=
+  {| k_method := 0; k_uri := [107; 48 + n]; k_iv := IvMissing; k_format := f; k_versions := None |}.
+Example C05_key_work_example :
+  let h := [Some (c05_key 1 None); Some (c05_key 2 (Some KfFairPlay)); Some (c05_key 3 (Some KfIdentity)); Some (c05_key 4 (Some KfFairPlay));
+            Some (c05_key 5 None); Some (c05_key 6 (Some KfFairPlay))] in
+  let reps := [c05_key 0 None; c05_key 0 (Some KfFairPlay)] in
+  (forall k, In (Some k) h -> exists r, In r reps /\ same_fmt k r = true)
+  /\ List.length (keys_after h) = 2%nat /\ key_work h = 24%nat /\ (24 <= 6 * (2 * 2 + 1))%nat.
+Proof.
+  cbv zeta. split; [|vm_compute; repeat split; repeat constructor].
+  intros k Hk. cbn [In] in Hk.
+  repeat (destruct Hk as [Hk | Hk]; [inversion Hk; subst k; (exists (c05_key 0 None); split; [left; reflexivity | reflexivity]) || (exists (c05_key 0 (Some KfFairPlay)); split; [right; left; reflexivity | reflexivity])|]).
+  destruct Hk.
+Qed.
+
 Example C05_slicing_panics :
   slice [34] 1 0 = Panic /\ slice (lit "a") 0 2 = Panic /\ slice [233; 97] 1 2 = Panic /\ usub 0 1 = Panic
   /\ slice (lit "abc") 1 2 = Ok (lit "b") /\ pairs_idx (lit " A = ""x,y"" ,B=1") = Ok [(lit "A", lit """x,y"""); (lit "B", lit "1")].
